@@ -6,6 +6,7 @@ import (
 	"errors"
 	"fmt"
 	"io"
+	"strings"
 	"time"
 
 	"github.com/tjfoc/gmsm/gmtls"
@@ -94,6 +95,7 @@ type benignParams struct {
 	SrvChain     int  // GM: 0 direct leaf, 1 via intermediate
 	SrvMissing   bool // GMSSL server configured with the signing certificate only
 	VHost        bool // the server holds two identities; the client asks for the second name (server2.sim)
+	SNICase      int  // VHost: spelling of the second name in the client's ServerName (0 lower case, 1 mixed case, 2 upper case): host names are case-insensitive
 	VHostCB      bool // VHost on a TLS-only server: static default certificate + GetCertificate callback serving the second name
 	MultiCert    bool // GMSSL client holding several certificates, an RSA one first: the SM2 one is the one to send
 	Reneg        int  // client's Config.Renegotiation (never / once / freely): no effect on a benign session
@@ -248,6 +250,9 @@ func drawBenignParams(c *simkit.Choice) benignParams {
 	if p.VHost && p.SMode == modeTLS && p.SrvCertSrc == 0 {
 		p.VHostCB = c.Bool(1, 2, simkit.LScen)
 	}
+	if p.VHost {
+		p.SNICase = c.Weighted([]int{2, 1, 1}, simkit.LScen)
+	}
 	if p.CGM && p.ClientCert == 1 && p.CliCertSrc == 0 && p.Peer != peerStdClient {
 		p.MultiCert = c.Bool(1, 3, simkit.LScen)
 	}
@@ -255,6 +260,10 @@ func drawBenignParams(c *simkit.Choice) benignParams {
 }
 
 var errCallback = errors.New("verifsim: injected callback error")
+
+func (p *benignParams) secondName() string {
+	return []string{"server2.sim", "Server2.Sim", "SERVER2.SIM"}[p.SNICase]
+}
 
 func tlsSrvCertName(k int) string { return []string{"tlsrsa", "tlsp256", "tlsp384", "tlsp521"}[k] }
 func tlsCliCertName(k int) string { return []string{"tlsclirsa", "tlsclip384", "tlsclip521"}[k] }
@@ -484,7 +493,7 @@ func gmOnly(l []uint16) []uint16 {
 
 func (p *benignParams) String() string {
 	return fmt.Sprintf("alpn=%v/%v curves=%v smode=%d cgm=%v peer=%d csuites=%x ssuites=%x prefsrv=%v cver=[%x,%x] sver=[%x,%x] auth=%d ccert=%d cas=%v ssrc=%d csrc=%d tick=%v dyn=%v skey=%d cberr=%d cverify=%d chain=%d missing=%v vhost=%v",
-		p.CProtos, p.SProtos, p.Curves, p.SMode, p.CGM, p.Peer, p.CSuites, p.SSuites, p.PreferServer, p.CMin, p.CMax, p.SMin, p.SMax, p.ClientAuth, p.ClientCert, p.SrvClientCAs, p.SrvCertSrc, p.CliCertSrc, p.Tickets, p.DynOff, p.SrvKey, p.CallbackErr, p.CVerify, p.SrvChain, p.SrvMissing, p.VHost) + fmt.Sprintf(" outer=%d bigchain=%v reneg=%d multicert=%v clikey=%d bigsize=%d vhostcb=%v", p.OuterCfg, p.BigChain, p.Reneg, p.MultiCert, p.CliKey, p.BigSize, p.VHostCB)
+		p.CProtos, p.SProtos, p.Curves, p.SMode, p.CGM, p.Peer, p.CSuites, p.SSuites, p.PreferServer, p.CMin, p.CMax, p.SMin, p.SMax, p.ClientAuth, p.ClientCert, p.SrvClientCAs, p.SrvCertSrc, p.CliCertSrc, p.Tickets, p.DynOff, p.SrvKey, p.CallbackErr, p.CVerify, p.SrvChain, p.SrvMissing, p.VHost) + fmt.Sprintf(" outer=%d bigchain=%v reneg=%d multicert=%v clikey=%d bigsize=%d vhostcb=%v snicase=%d", p.OuterCfg, p.BigChain, p.Reneg, p.MultiCert, p.CliKey, p.BigSize, p.VHostCB, p.SNICase)
 }
 
 // serverConfig builds the gmtls server configuration.
@@ -546,7 +555,7 @@ func (p *benignParams) serverConfig(s *simkit.Sim, ent *simkit.Stream, res *endR
 				// Certificates is empty" - the client does supply the second name
 				c.GetCertificate = func(h *gmtls.ClientHelloInfo) (*gmtls.Certificate, error) {
 					res.SeenSNI = append(res.SeenSNI, h.ServerName)
-					if h.ServerName == "server2.sim" {
+					if strings.EqualFold(h.ServerName, "server2.sim") {
 						return &std2, nil
 					}
 					return nil, nil
@@ -563,7 +572,7 @@ func (p *benignParams) serverConfig(s *simkit.Sim, ent *simkit.Stream, res *endR
 				return nil, errCallback
 			}
 			res.SeenSNI = append(res.SeenSNI, h.ServerName)
-			second := p.VHost && h.ServerName == "server2.sim"
+			second := p.VHost && strings.EqualFold(h.ServerName, "server2.sim")
 			for _, v := range h.SupportedVersions {
 				if v == gmtls.VersionGMSSL {
 					if second {
@@ -582,7 +591,7 @@ func (p *benignParams) serverConfig(s *simkit.Sim, ent *simkit.Stream, res *endR
 				return nil, errCallback
 			}
 			res.SeenSNI = append(res.SeenSNI, h.ServerName)
-			if p.VHost && h.ServerName == "server2.sim" {
+			if p.VHost && strings.EqualFold(h.ServerName, "server2.sim") {
 				return &enc2, nil
 			}
 			return &enc, nil
@@ -689,7 +698,7 @@ func (p *benignParams) clientConfig(s *simkit.Sim, ent *simkit.Stream, res *endR
 		cfg.RootCAs = pki.Pool("rsaCA")
 	}
 	if p.VHost {
-		cfg.ServerName = "server2.sim"
+		cfg.ServerName = p.secondName()
 	}
 	switch p.CVerify {
 	case 1:
@@ -1083,7 +1092,7 @@ func runTLSBenign(c *simkit.Choice, r *simkit.Rec) {
 	if p.Peer != peerStdServer {
 		wantName := "server.sim"
 		if p.VHost {
-			wantName = "server2.sim"
+			wantName = p.secondName()
 		}
 		if p.CVerify == 1 {
 			wantName = "other.sim"
@@ -1161,7 +1170,7 @@ func runTLSBenign(c *simkit.Choice, r *simkit.Rec) {
 	for _, n := range sr.SeenSNI {
 		want := "server.sim"
 		if p.VHost {
-			want = "server2.sim"
+			want = p.secondName()
 		}
 		if n != want && p.Peer != peerStdServer {
 			r.Violate("callback-sni", site, fmt.Sprintf("a certificate/config callback saw ServerName %q, the client sent %q [%s]", n, want, p.String()))
